@@ -22,7 +22,7 @@ for p in props:
     npf = len(pf)
     level = m.LEVEL
     tech = (f"contract-based deductive verification: pyvc generates VCs from the current source of {', '.join(pf)} against sidecar contracts and discharges "
-            "them with z3 (cvc5 on unknown); functions outside the generator's reach: " if npf else
+            "them with z3 5.1.0, each `unsat` confirmed by cvc5 1.0.3 or z3 4.8.12 on the same SMT-LIB text or on z3's unsat core; functions outside the generator's reach: " if npf else
             "no function of this property is within reach of the VC generator (see DESIGN.md §0a); deciding method: ") + \
            "bounded native execution of the contracts against the independent executable specification over an enumerated scope (labelled stand-in, never counted as proved)"
     checks.append({
